@@ -3,6 +3,7 @@ import Iec.Drv.Asdu
 import Iec.Drv.Srv104
 import Iec.Drv.Cli104
 import Iec.Drv.Dispatch
+import Iec.Drv.Locks
 /-
 iecdrv — line-protocol driver: one operation per input line, one canonical result
 line per operation.  The C harnesses execute the same lines on the real code; the
@@ -34,7 +35,10 @@ def dispatch (st : DrvState) (ws : List String) : DrvState × String :=
             | none =>
               match Iec.Drv.Dispatch.handle ws with
               | some s => (st, s)
-              | none => (st, "bad-op")
+              | none =>
+                match Iec.Drv.Locks.handle ws with
+                | some s => (st, s)
+                | none => (st, "bad-op")
 
 partial def loop (h : IO.FS.Stream) (out : IO.FS.Stream) (st : DrvState) : IO Unit := do
   let line ← h.getLine
